@@ -31,9 +31,9 @@ def plan(tier, seed):
             for strict in (1, 0):
                 if quick and init == 5 and factor == 1:
                     continue
-                cfgs.append(dict(depth=3 if quick else 4, factor=factor, init=init, strict=strict, syncsteps=3 if quick else 6))
-    return {"cfgs": cfgs, "budget": 2 if quick else 3,
-            "bound": "D<=%d, clock deviation budget %d" % (3 if quick else 4, 2 if quick else 3)}
+                cfgs.append(dict(depth=3 if quick else 4, factor=factor, init=init, strict=strict, syncsteps=3 if quick else 4))
+    return {"cfgs": cfgs, "budget": 2,
+            "bound": "D<=%d, clock deviation budget 2" % (3 if quick else 4)}
 
 
 class Rec:
